@@ -1,7 +1,8 @@
 /-
 C14 — header import leaves the stores equal to the file, or consistent on failure.
 -/
-import Neutrino.Lemmas.Import
+import Neutrino.Lemmas.ImportChain
+import Neutrino.Lemmas.ImportValidate
 import Neutrino.Gen.Import
 namespace Neutrino.Import
 
@@ -119,10 +120,12 @@ theorem import_noop_when_full (F : File) (cfg : Cfg) (B : List BHdr) (Fl : List 
     obtain ⟨j, _, hj⟩ := hp.2 e hr
     rw [hj, hd1, hd2]; simp
 
-/-- **Repeating the import changes nothing** (outside the recorded shape): after
-a successful import, a second import of the same files — with any batch size and
-whatever it reports — leaves both stores exactly as they are. -/
-theorem C14_idempotent_partial (F : File) (cfg cfg2 : Cfg) (st : Stores) (hh : Healthy st) (heq : EqualHeights st)
+/-- Repeating the import with ANY batch size changes nothing (outside the
+recorded shape), whatever the second import reports.  (With a different batch
+size it may report `invalid`: the validator sanity-checks the file's first header
+only when the first batch has length one.)  See `C14_idempotent_partial` for the
+identical import. -/
+theorem C14_idempotent_any_batch_partial (F : File) (cfg cfg2 : Cfg) (st : Stores) (hh : Healthy st) (heq : EqualHeights st)
     (hbs : cfg.bs ≥ 1) (hbs2 : cfg2.bs ≥ 1) (hshape : f7Shape (obsOf st) F = false)
     (hok : (importStores F cfg st).1 = none) :
     (importStores F cfg2 (importStores F cfg st).2).2 = (importStores F cfg st).2 := by
@@ -156,6 +159,52 @@ theorem C14_idempotent_partial (F : File) (cfg cfg2 : Cfg) (st : Stores) (hh : H
     have hp := importRun_covered F cfg B Fl B.length rfl heq.symm hl1 he
     rw [hp.1]
     exact (importRun_covered F cfg2 B Fl B.length rfl heq.symm hl1 he).1
+
+/-- **Repeating the import reports success and changes nothing** (outside the
+recorded shape): after a successful import, a second import of the same files
+with the same batch size — even with write failures armed, none is reached —
+reports success and leaves both stores exactly as they are. -/
+theorem C14_idempotent_partial (F : File) (cfg cfg2 : Cfg) (st : Stores) (hh : Healthy st) (heq : EqualHeights st)
+    (hbs : cfg.bs ≥ 1) (hsame : cfg2.bs = cfg.bs) (hshape : f7Shape (obsOf st) F = false)
+    (hok : (importStores F cfg st).1 = none) :
+    (importStores F cfg2 (importStores F cfg st).2).1 = none ∧
+    (importStores F cfg2 (importStores F cfg st).2).2 = (importStores F cfg st).2 := by
+  refine ⟨?_, C14_idempotent_any_batch_partial F cfg cfg2 st hh heq hbs (by omega) hshape hok⟩
+  obtain ⟨hl1, hl2⟩ := healthy_len st hh
+  have hmk := healthy_eq_mk st hh
+  unfold EqualHeights at heq
+  obtain ⟨B, Fl, rfl⟩ : ∃ B Fl, st = mk B Fl := ⟨_, _, hmk⟩
+  have heq : B.length = Fl.length := heq
+  have hl1 : B.length ≥ 1 := hl1
+  have hl2 : Fl.length ≥ 1 := hl2
+  unfold importStores at hok ⊢
+  simp only at hok ⊢
+  obtain ⟨hpre, hc, hv⟩ := importRun_ok_facts F cfg _ hok
+  obtain ⟨_, hne, hN, _⟩ := preChecks_none F hpre
+  have hlen : F.blocks.length ≥ 1 := by
+    cases hb : F.blocks with
+    | nil => exact absurd hb hne
+    | cons x xs => simp
+  by_cases hs : F.bstart = 0
+  · have hp := importRun_zero F cfg B Fl B.length hs hbs rfl heq.symm hl1
+    obtain ⟨_, hst⟩ := hp.1 hok
+    rw [hst]
+    have hc2 := continuity_after_success F B Fl hs hl1 heq hN hlen hc
+    have hcov := importRun_covered_gen F cfg2 (B ++ F.blocks.drop B.length) (Fl ++ F.filters.drop B.length)
+      (by rw [List.length_append]; omega) (by rw [List.length_append]; omega)
+      (by simp only [List.length_append, List.length_drop]; unfold endHeight; omega)
+    exact hcov.2.mpr ⟨hpre, hc2, hsame ▸ hv⟩
+  · have e3 : ∀ B Fl, (obsOf (mk B Fl)).blocks = B := fun _ _ => rfl
+    have e4 : ∀ B Fl, (obsOf (mk B Fl)).filters = Fl := fun _ _ => rfl
+    have he : endHeight F ≤ B.length - 1 := by
+      simp only [f7Shape, Bool.and_eq_false_iff, decide_eq_false_iff_not, e3, e4] at hshape
+      rcases hshape with h | h
+      · omega
+      · rw [← heq, Nat.min_self] at h; omega
+    have hp := importRun_covered F cfg B Fl B.length rfl heq.symm hl1 he
+    rw [hp.1]
+    have hcov := importRun_covered_gen F cfg2 B Fl hl1 hl2 (by omega)
+    exact hcov.2.mpr ⟨hpre, hc, hsame ▸ hv⟩
 
 /-- **Failure clause, full statement** (false in the recorded shape, see the counterexample). -/
 def C14_failure : Prop :=
@@ -256,6 +305,331 @@ theorem C14_failure_partial (F : File) (cfg : Cfg) (st : Stores) (e : Err) (hh :
     simp only [failContentOk, hu, e3, e4, Nat.sub_self, List.take_zero, List.append_nil, beq_self_eq_true, heq,
       Nat.le_refl, decide_true, Bool.or_true, Bool.true_or, Bool.and_self, Nat.lt_irrefl, decide_false, Bool.false_or]
 
+/-- chain facts for level stores and a file from height 0 that passed all checks -/
+theorem chain_level_zero (F : File) (bs : Nat) (B : List BHdr) (Fl : List Nat)
+    (hs : F.bstart = 0) (hl : B.length ≥ 1) (heq : B.length = Fl.length)
+    (hc : continuity F (mk B Fl) = none) (hv : validateBlocks F.blocks bs = true) :
+    (F.blocks.drop B.length).all (·.valid) = true ∧
+    (connected B = true → connected (B ++ F.blocks.drop B.length) = true) := by
+  have hpairs := validateBlocks_pairsOk _ _ hv
+  constructor
+  · have : F.blocks.drop B.length = (F.blocks.drop 1).drop (B.length - 1) := by
+      rw [List.drop_drop]; congr 1; omega
+    rw [this]
+    exact all_drop _ _ _ (pairsOk_tail_valid _ hpairs)
+  · intro hcb
+    cases hD : F.blocks.drop B.length with
+    | nil => rw [List.append_nil]; exact hcb
+    | cons c D =>
+      have hcD : connected (c :: D) = true := by
+        rw [← hD]; exact connected_drop _ _ (pairsOk_connected _ hpairs)
+      have hca : F.blocks[B.length]? = some c := by
+        have := congrArg (fun l => l[0]?) hD
+        simpa [List.getElem?_drop] using this
+      have hlt : B.length < F.blocks.length := by
+        rcases Nat.lt_or_ge B.length F.blocks.length with h | h
+        · exact h
+        · rw [List.drop_eq_nil_of_le h] at hD; simp at hD
+      have hfacts := (continuity_overlap_iff F (mk B Fl) (B.length - 1) (Fl.length - 1)
+        (bChainTip_mk B Fl hl) (fChainTip_mk B Fl (by omega)) (by omega)).mp hc
+      unfold overlapFacts at hfacts
+      have hoe : min (min (B.length - 1) (Fl.length - 1)) (endHeight F) = B.length - 1 := by
+        unfold endHeight; omega
+      rw [hoe] at hfacts
+      have hconn := hfacts.2.2 (by unfold endHeight; omega)
+      unfold connects at hconn
+      have h1 : B.length - 1 + 1 - F.bstart = B.length := by omega
+      rw [h1, hca] at hconn
+      have hBm : (mk B Fl).blocks = B := rfl
+      rw [hBm] at hconn
+      cases hp : B[B.length - 1]? with
+      | none => rw [hp] at hconn; simp at hconn
+      | some p =>
+        rw [hp] at hconn
+        simp only [beq_iff_eq] at hconn
+        exact connected_append_cons B p c D hcb (by rw [List.getLast?_eq_getElem?]; exact hp) hconn hcD
+
+/-- **Chain clause of success, outside the recorded shape.**  If `Import` reports
+success, the block chain stored is connected (given that it was before) and every
+appended header is valid.  What exactly is validated: the validator pair-checks
+(PrevBlock link + contextual check + sanity/proof of work of the SECOND header)
+every consecutive pair of the file, inside a batch or across two batches; the
+FIRST header of the file is sanity-checked only when the first batch has length
+one (`validateBlocks`).  For a file starting at height 0 this gap cannot let an
+unvalidated header into the stores: the stores always hold genesis (height ≥ 1
+entries), so what is appended is `file.drop k` with `k ≥ 1` — headers that were
+each the second element of a passed pair check — the first of them additionally
+checked to link to the block-store tip (`validateHeaderConnection`); the file's
+first header is never written, it is only compared with the stores' own genesis
+(`verifyHeadersAtTargetHeight`).  (For a file starting above 0 the first header
+can be the first one appended; that is inside the recorded shape F7.) -/
+theorem C14_success_chain_valid_partial (F : File) (cfg : Cfg) (st : Stores) (hh : Healthy st) (heq : EqualHeights st)
+    (hbs : cfg.bs ≥ 1) (hshape : f7Shape (obsOf st) F = false)
+    (hok : (importStores F cfg st).1 = none) :
+    chainOk (obsOf st) (obsOf (importStores F cfg st).2) = true := by
+  obtain ⟨hl1, hl2⟩ := healthy_len st hh
+  have hmk := healthy_eq_mk st hh
+  unfold EqualHeights at heq
+  obtain ⟨B, Fl, rfl⟩ : ∃ B Fl, st = mk B Fl := ⟨_, _, hmk⟩
+  have heq : B.length = Fl.length := heq
+  have hl1 : B.length ≥ 1 := hl1
+  have hl2 : Fl.length ≥ 1 := hl2
+  unfold importStores at hok ⊢
+  simp only at hok ⊢
+  have e3 : ∀ B Fl, (obsOf (mk B Fl)).blocks = B := fun _ _ => rfl
+  by_cases hs : F.bstart = 0
+  · have hp := importRun_zero F cfg B Fl B.length hs hbs rfl heq.symm hl1
+    obtain ⟨_, hst⟩ := hp.1 hok
+    obtain ⟨_, hc, hv⟩ := importRun_ok_facts F cfg _ hok
+    obtain ⟨hval, hconn⟩ := chain_level_zero F cfg.bs B Fl hs hl1 heq hc hv
+    rw [hst]
+    simp only [chainOk, e3, List.drop_left', hval, Bool.and_true, Bool.or_eq_true, Bool.not_eq_true']
+    cases hcb : connected B with
+    | false => exact Or.inl rfl
+    | true => exact Or.inr (hconn hcb)
+  · have he : endHeight F ≤ B.length - 1 := by
+      have e4 : ∀ B Fl, (obsOf (mk B Fl)).filters = Fl := fun _ _ => rfl
+      simp only [f7Shape, Bool.and_eq_false_iff, decide_eq_false_iff_not, e3, e4] at hshape
+      rcases hshape with h | h
+      · omega
+      · rw [← heq, Nat.min_self] at h; omega
+    have hp := importRun_covered F cfg B Fl B.length rfl heq.symm hl1 he
+    rw [hp.1]
+    simp only [chainOk, e3, List.drop_length, List.all_nil, Bool.and_true, Bool.or_eq_true, Bool.not_eq_true']
+    cases connected B <;> simp
+
+/-- **The validator's obligations.**  `validateBlocks`, the closed form the model
+of `Import` uses, is exactly the validator's walk over the file in batches of the
+configured size (`ValidateBatch` inside a batch — a single-header batch is
+`ValidateSingle`d, a longer one pair-checks every header from its second on —
+and `ValidatePair(last header of the previous batch, first header of this one)`
+across batches); and in an accepted file every header except the first passed
+`ValidatePair` (PrevBlock link, contextual check, sanity/proof of work) against
+its predecessor.  Together with `C14_success_partial` (what is appended is
+`file.drop k`, `k ≥ 1`, for file start 0) a header is appended only if its pair
+check passed. -/
+theorem C14_validator_obligations (body : List BHdr) (bs : Nat) (hbs : bs ≥ 1) :
+    validateBlocks body bs = validateWalk bs body.length none body ∧
+    (validateBlocks body bs = true → ∀ i a c, body[i]? = some a → body[i + 1]? = some c → pairOk a c = true) :=
+  ⟨validateBlocks_eq_walk body bs hbs, fun h i a c ha hc => validated_pairs body bs i a c h ha hc⟩
+
+/-- the validator's gap, as a fact of the model: with a first batch of two or
+more headers a file whose FIRST header fails the sanity check (bad proof of work)
+is accepted; with batch size 1 it is rejected -/
+example : validateBlocks [⟨1, 0, false⟩, ⟨2, 1, true⟩, ⟨3, 2, true⟩] 2 = true ∧
+    validateBlocks [⟨1, 0, false⟩, ⟨2, 1, true⟩, ⟨3, 2, true⟩] 1 = false := by decide
+
+/-- **Sampled agreement with existing data**: a successful import (any healthy
+stores, any file) means the file carries the stores' own block and filter headers
+at the first and at the last overlapping height — a file contradicting existing
+data there is refused.  (Heights strictly inside the overlap are not compared:
+`validateChainContinuity` samples the two ends only; for block headers the
+validator's pair checks make the ends imply the middle, for filter headers
+nothing does.) -/
+theorem C14_success_sample_partial (F : File) (cfg : Cfg) (st : Stores) (hh : Healthy st)
+    (hok : (importStores F cfg st).1 = none) : sampleOk (obsOf st) F = true := by
+  obtain ⟨hl1, hl2⟩ := healthy_len st hh
+  have hmk := healthy_eq_mk st hh
+  obtain ⟨B, Fl, rfl⟩ : ∃ B Fl, st = mk B Fl := ⟨_, _, hmk⟩
+  obtain ⟨hpre, hc, _⟩ := importRun_ok_facts F cfg _ hok
+  obtain ⟨_, hne, _, _⟩ := preChecks_none F hpre
+  have hlen : F.blocks.length ≥ 1 := by
+    cases hb : F.blocks with
+    | nil => exact absurd hb hne
+    | cons x xs => simp
+  exact sample_of_continuity F B Fl hl1 hl2 hlen hc
+
+/-- **The whole success clause of the run-time oracle**, outside the recorded shape. -/
+theorem C14_success_all_partial (F : File) (cfg : Cfg) (st : Stores) (hh : Healthy st) (heq : EqualHeights st)
+    (hbs : cfg.bs ≥ 1) (hshape : f7Shape (obsOf st) F = false)
+    (hok : (importStores F cfg st).1 = none) :
+    successOk (obsOf st) F (obsOf (importStores F cfg st).2) = true := by
+  simp only [successOk, C14_success_partial F cfg st hh heq hbs hshape hok,
+    C14_success_chain_valid_partial F cfg st hh heq hbs hshape hok,
+    C14_success_sample_partial F cfg st hh hok, Bool.and_self]
+
+/-- **The whole failure clause of the run-time oracle**, outside the recorded
+shape, level stores: on every error the stores are usable, level, hold their old
+contents plus the same number of file headers each, height for height, and what
+was appended is connected to the old chain and pair-validated. -/
+theorem C14_failure_all_partial (F : File) (cfg : Cfg) (st : Stores) (e : Err) (hh : Healthy st) (heq : EqualHeights st)
+    (hbs : cfg.bs ≥ 1) (hshape : f7Shape (obsOf st) F = false)
+    (herr : (importStores F cfg st).1 = some e) :
+    failureOk (obsOf st) F (obsOf (importStores F cfg st).2) = true := by
+  obtain ⟨hfc, hlevel⟩ := C14_failure_partial F cfg st e hh heq hbs hshape herr
+  have hchain : chainOk (obsOf st) (obsOf (importStores F cfg st).2) = true := by
+    obtain ⟨hl1, hl2⟩ := healthy_len st hh
+    have hmk := healthy_eq_mk st hh
+    unfold EqualHeights at heq
+    obtain ⟨B, Fl, rfl⟩ : ∃ B Fl, st = mk B Fl := ⟨_, _, hmk⟩
+    have heq : B.length = Fl.length := heq
+    have hl1 : B.length ≥ 1 := hl1
+    have e3 : ∀ B Fl, (obsOf (mk B Fl)).blocks = B := fun _ _ => rfl
+    have e4 : ∀ B Fl, (obsOf (mk B Fl)).filters = Fl := fun _ _ => rfl
+    have hunch : ∀ st', st' = mk B Fl → chainOk (obsOf (mk B Fl)) (obsOf st') = true := by
+      intro st' h; subst h
+      simp only [chainOk, e3, List.drop_length, List.all_nil, Bool.and_true, Bool.or_eq_true, Bool.not_eq_true']
+      cases connected B <;> simp
+    unfold importStores at herr ⊢
+    simp only at herr ⊢
+    by_cases hchk : preChecks F = none ∧ continuity F (mk B Fl) = none ∧ validateBlocks F.blocks cfg.bs = true
+    · obtain ⟨_, hc, hv⟩ := hchk
+      by_cases hs : F.bstart = 0
+      · have hp := importRun_zero F cfg B Fl B.length hs hbs rfl heq.symm hl1
+        obtain ⟨j, _, hst⟩ := hp.2 e herr
+        obtain ⟨hval, hconn⟩ := chain_level_zero_take F cfg.bs B Fl j hs hl1 heq hc hv
+        rw [hst]
+        simp only [chainOk, e3, List.drop_left', hval, Bool.and_true, Bool.or_eq_true, Bool.not_eq_true']
+        cases hcb : connected B with
+        | false => exact Or.inl rfl
+        | true => exact Or.inr (hconn hcb)
+      · have he : endHeight F ≤ B.length - 1 := by
+          simp only [f7Shape, Bool.and_eq_false_iff, decide_eq_false_iff_not, e3, e4] at hshape
+          rcases hshape with h | h
+          · omega
+          · rw [← heq, Nat.min_self] at h; omega
+        exact hunch _ (importRun_covered F cfg B Fl B.length rfl heq.symm hl1 he).1
+    · have h' : preChecks F ≠ none ∨ continuity F (mk B Fl) ≠ none ∨ validateBlocks F.blocks cfg.bs = false := by
+        by_cases h1 : preChecks F = none
+        · by_cases h2 : continuity F (mk B Fl) = none
+          · right; right
+            cases hv : validateBlocks F.blocks cfg.bs with
+            | false => rfl
+            | true => exact absurd ⟨h1, h2, hv⟩ hchk
+          · exact Or.inr (Or.inl h2)
+        · exact Or.inl h1
+      exact hunch _ (importRun_early F cfg (mk B Fl) h').1
+  have hlv : ((obsOf st).blocks.length != (obsOf st).filters.length ||
+      (obsOf (importStores F cfg st).2).blocks.length == (obsOf (importStores F cfg st).2).filters.length) = true := by
+    have : (obsOf (importStores F cfg st).2).blocks.length = (obsOf (importStores F cfg st).2).filters.length := hlevel
+    rw [this]; simp
+  simp only [failureOk, hfc, hchain, hlv, Bool.and_self]
+
+/-! ### Block store ahead of the filter store
+
+The only unequal-height pre-state reachable with real `headerfs` stores (the
+filter store's tip is resolved through the block index, so it cannot be ahead and
+readable).  Block hashes are collision free: the ids in the block store are
+pairwise distinct.  OBSERVATION (not a C14 violation — the stores stay intact):
+in this state an honest file from height 0 that reaches above the filter tip is
+ALWAYS refused (`err conn`), because `validateHeaderConnection` is handed the
+block TIP height instead of the overlap end, so the importer can never bring a
+lagging filter store level again; `C14_block_ahead_always_fails` is the general
+statement, the `example` below the concrete witness. -/
+
+/-- block store ahead: outside the recorded shape the stores are never touched,
+whatever the import reports -/
+theorem block_ahead_unchanged (F : File) (cfg : Cfg) (st : Stores) (hh : Healthy st)
+    (hahead : st.filters.length < st.blocks.length) (hnd : (st.blocks.map (·.id)).Nodup)
+    (hshape : f7Shape (obsOf st) F = false) :
+    (importStores F cfg st).2 = st ∧
+    (F.bstart = 0 → endHeight F > st.filters.length - 1 → (importStores F cfg st).1 ≠ none) ∧
+    ((importStores F cfg st).1 = none →
+      preChecks F = none ∧ F.bstart ≤ st.filters.length ∧ endHeight F ≤ st.filters.length - 1) := by
+  obtain ⟨hl1, hl2⟩ := healthy_len st hh
+  have hmk := healthy_eq_mk st hh
+  obtain ⟨B, Fl, rfl⟩ : ∃ B Fl, st = mk B Fl := ⟨_, _, hmk⟩
+  have hahead : Fl.length < B.length := hahead
+  have hnd : (B.map (·.id)).Nodup := hnd
+  have hl1 : B.length ≥ 1 := hl1
+  have hl2 : Fl.length ≥ 1 := hl2
+  have e3 : ∀ B Fl, (obsOf (mk B Fl)).blocks = B := fun _ _ => rfl
+  have e4 : ∀ B Fl, (obsOf (mk B Fl)).filters = Fl := fun _ _ => rfl
+  show (importRun F cfg (mk B Fl)).2.st = mk B Fl ∧
+    (F.bstart = 0 → endHeight F > Fl.length - 1 → (importRun F cfg (mk B Fl)).1 ≠ none) ∧
+    ((importRun F cfg (mk B Fl)).1 = none → preChecks F = none ∧ F.bstart ≤ Fl.length ∧ endHeight F ≤ Fl.length - 1)
+  by_cases hreach : endHeight F ≤ Fl.length - 1
+  · have hcov := importRun_covered_gen F cfg B Fl hl1 hl2 (by omega)
+    refine ⟨hcov.1, fun _ h => absurd h (by omega), fun hn => ?_⟩
+    obtain ⟨hp, hc, _⟩ := hcov.2.mp hn
+    have := continuity_no_gap F B Fl hl1 hl2 hc
+    exact ⟨hp, by omega, hreach⟩
+  · have hs : F.bstart = 0 := by
+      simp only [f7Shape, Bool.and_eq_false_iff, decide_eq_false_iff_not, e3, e4] at hshape
+      rcases hshape with h | h
+      · omega
+      · omega
+    have hearly : preChecks F ≠ none ∨ continuity F (mk B Fl) ≠ none ∨ validateBlocks F.blocks cfg.bs = false := by
+      by_cases h1 : preChecks F = none
+      · by_cases h2 : continuity F (mk B Fl) = none
+        · right; right
+          cases hv : validateBlocks F.blocks cfg.bs with
+          | false => rfl
+          | true => exact (block_ahead_checks_fail F cfg.bs B Fl hs hl2 hahead hnd (by omega) h2 hv).elim
+        · exact Or.inr (Or.inl h2)
+      · exact Or.inl h1
+    obtain ⟨hst, hne⟩ := importRun_early F cfg (mk B Fl) hearly
+    exact ⟨hst, fun _ _ => hne, fun hn => absurd hn hne⟩
+
+/-- **Failure clause with the block store ahead of the filter store** (outside
+the recorded shape, no `EqualHeights`): whatever error `Import` reports, both
+stores are exactly as before — usable, filters below blocks, nothing appended. -/
+theorem C14_failure_block_ahead_partial (F : File) (cfg : Cfg) (st : Stores) (e : Err) (hh : Healthy st)
+    (hahead : st.filters.length < st.blocks.length) (hnd : (st.blocks.map (·.id)).Nodup)
+    (hshape : f7Shape (obsOf st) F = false) (_herr : (importStores F cfg st).1 = some e) :
+    failureOk (obsOf st) F (obsOf (importStores F cfg st).2) = true ∧ (importStores F cfg st).2 = st := by
+  obtain ⟨hl1, hl2⟩ := healthy_len st hh
+  have hun := (block_ahead_unchanged F cfg st hh hahead hnd hshape).1
+  refine ⟨?_, hun⟩
+  rw [hun]
+  have hmk := healthy_eq_mk st hh
+  obtain ⟨B, Fl, rfl⟩ : ∃ B Fl, st = mk B Fl := ⟨_, _, hmk⟩
+  have hahead : Fl.length < B.length := hahead
+  have hfc := failContent_unchanged F B Fl hl1 hl2 (Nat.le_of_lt hahead)
+  have e3 : (obsOf (mk B Fl)).blocks = B := rfl
+  have e4 : (obsOf (mk B Fl)).filters = Fl := rfl
+  have hne : (B.length != Fl.length) = true := by
+    simp only [bne_iff_ne, ne_eq]; omega
+  simp only [failureOk, hfc, chainOk, e3, e4, List.drop_length, List.all_nil, Bool.and_true, Bool.true_and, hne,
+    Bool.true_or, Bool.and_self]
+  cases connected B <;> rfl
+
+/-- success with the block store ahead (possible only for a file ending at or
+below the filter tip): nothing to do, and nothing done -/
+theorem C14_success_block_ahead_partial (F : File) (cfg : Cfg) (st : Stores) (hh : Healthy st)
+    (hahead : st.filters.length < st.blocks.length) (hnd : (st.blocks.map (·.id)).Nodup)
+    (hshape : f7Shape (obsOf st) F = false) (hok : (importStores F cfg st).1 = none) :
+    contentOk (obsOf st) F (obsOf (importStores F cfg st).2) = true ∧
+    chainOk (obsOf st) (obsOf (importStores F cfg st).2) = true ∧ (importStores F cfg st).2 = st := by
+  obtain ⟨hl1, hl2⟩ := healthy_len st hh
+  obtain ⟨hun, _, hfacts⟩ := block_ahead_unchanged F cfg st hh hahead hnd hshape
+  obtain ⟨hp, hgap, hend⟩ := hfacts hok
+  obtain ⟨hmeta, _, hN, _⟩ := preChecks_none F hp
+  refine ⟨?_, ?_, hun⟩
+  · rw [hun]
+    have hmk := healthy_eq_mk st hh
+    obtain ⟨B, Fl, rfl⟩ : ∃ B Fl, st = mk B Fl := ⟨_, _, hmk⟩
+    have hahead : Fl.length < B.length := hahead
+    have hgap : F.bstart ≤ Fl.length := hgap
+    have hend : endHeight F ≤ Fl.length - 1 := hend
+    have hl1 : B.length ≥ 1 := hl1
+    have hl2 : Fl.length ≥ 1 := hl2
+    have hu := usable_mk B Fl hl1 hl2
+    have e3 : (obsOf (mk B Fl)).blocks = B := rfl
+    have e4 : (obsOf (mk B Fl)).filters = Fl := rfl
+    have hd1 : F.blocks.drop (B.length - F.bstart) = [] :=
+      List.drop_eq_nil_of_le (by unfold endHeight at hend; omega)
+    have hd2 : F.filters.drop (Fl.length - F.bstart) = [] :=
+      List.drop_eq_nil_of_le (by unfold endHeight at hend; omega)
+    have hg1 : F.bstart ≤ B.length := by omega
+    simp only [contentOk, hmeta, hu, e3, e4, extend, hd1, hd2, List.append_nil, hgap, hg1, decide_true, Bool.and_self,
+      beq_self_eq_true]
+  · rw [hun]
+    simp only [chainOk, List.drop_length, List.all_nil, Bool.and_true, Bool.or_eq_true, Bool.not_eq_true']
+    cases connected (obsOf st).blocks <;> simp
+
+/-- **The always-failing import** (observation): block store ahead, ids distinct,
+file from height 0 reaching above the filter tip — `Import` reports an error for
+every such file, however honest, every batch size, and changes nothing. -/
+theorem C14_block_ahead_always_fails (F : File) (cfg : Cfg) (st : Stores) (hh : Healthy st)
+    (hahead : st.filters.length < st.blocks.length) (hnd : (st.blocks.map (·.id)).Nodup)
+    (hs : F.bstart = 0) (hreach : endHeight F > st.filters.length - 1) :
+    (importStores F cfg st).1 ≠ none ∧ (importStores F cfg st).2 = st := by
+  have hshape : f7Shape (obsOf st) F = false := by
+    simp only [f7Shape, hs, Nat.lt_irrefl, decide_false, Bool.false_and]
+  obtain ⟨hun, hf, _⟩ := block_ahead_unchanged F cfg st hh hahead hnd hshape
+  exact ⟨hf hs hreach, hun⟩
+
 /-- The facts regenerated from chainimport/headers_import.go on this run that the
 model transcribes: `processBatch` hands `batchStart` — which `appendNewHeaders`
 initialises with the target `startHeight` and advances by `batchEnd + 1` — to both
@@ -295,6 +669,16 @@ example : failureOk (obsOf exStores) exFile (obsOf (importStores exFile { bs := 
 -- block store ahead of the filter store, honest file: rejected, stores untouched
 example : importStores exFile { bs := 2 } { exStores with filters := [1], ftip := some 0 } =
     (some .conn, { exStores with filters := [1], ftip := some 0 }) := by decide
+-- block store ahead, distinct ids: the hypotheses of the block-ahead theorems are met, and the honest file is refused
+example : Healthy { exStores with filters := [1], ftip := some 0 } ∧
+    (({ exStores with filters := [1], ftip := some 0 } : Stores).blocks.map (·.id)).Nodup ∧
+    f7Shape (obsOf { exStores with filters := [1], ftip := some 0 }) exFile = false := by decide
+-- the second identical import reports success and changes nothing
+example : importStores exFile { bs := 2 } (importStores exFile { bs := 2 } exStores).2 =
+    (none, (importStores exFile { bs := 2 } exStores).2) := by decide
+-- the validator's walk on the example file, batch size 3 (7 headers: 3+3+1), and on a file with a broken link
+example : validateWalk 3 7 none exFile.blocks = true ∧
+    validateWalk 3 3 none [⟨1, 0, true⟩, ⟨2, 1, true⟩, ⟨3, 9, true⟩] = false := by decide
 -- the recorded shape really is what C14_success_counterexample uses
 example : f7Shape (obsOf cexStores) cexFile = true ∧ f7Shape (obsOf cexStores2) cexFile2 = true := by decide
 
